@@ -234,8 +234,9 @@ func c19CleanEnv(extra ...string) []string {
 func TestVerifC19Binary(t *testing.T) {
 	rep := kit.NewReport("C19", "binary")
 	defer rep.Write()
-	rep.SetRule("the real liftbridge binary (go build of $VERIF_REPO's main package) runs under `strace -f -e trace=connect` against a NATS server started by the harness; routes: telemetry.enabled: <off> in a config file; LIFTBRIDGE_TELEMETRY_ENABLED=<off> with a config file; the same with flags only (no config file); <off> = the documented `false` in one of the first two rounds of every route, otherwise the next entry of a seeded rotation over the other spellings of 'off' (false literals of strconv.ParseBool / YAML 1.1 booleans, bare and quoted, the word `disabled`; classes alternate, a YAML-1.1 literal such as no/off first); next to the opt-out the reporting interval is left unset or set to a positive value, 0 or a negative value (in the file resp. through LIFTBRIDGE_TELEMETRY_INTERVAL_SECONDS), rotating over routes and rounds; positive controls with telemetry on (defaults without proxy => resolver connect to port 53; config file + HTTPS_PROXY => CONNECT at the harness listener).  The binary is used over gRPC (stream with needle name, publishes), then stopped with SIGINT.  Oracle on the complete trace of an opt-out run: no connect() except unix sockets and loopback connections other than DNS / the proxy, and the proxy listener saw nothing.  non-trivial = binary served gRPC, exited 0 after SIGINT and the trace was parsed; distinct = route x proxy x interval class x spelling class x round")
+	rep.SetRule("the real liftbridge binary (go build of $VERIF_REPO's main package) runs under `strace -f -e trace=connect` against a NATS server started by the harness; routes: telemetry.enabled: <off> in a config file; LIFTBRIDGE_TELEMETRY_ENABLED=<off> with a config file; the same with flags only (no config file); the same next to a config file that DISAGREES (spells out enabled: true, nested form in even and dotted form in odd rounds: the environment opt-out must win); <off> = the documented `false` in one of the first two rounds of every route, otherwise the next entry of a seeded rotation over the other spellings of 'off' (false literals of strconv.ParseBool / YAML 1.1 booleans, bare and quoted, the word `disabled`; classes alternate, a YAML-1.1 literal such as no/off first); next to the opt-out the reporting interval is left unset or set to a positive value, 0 or a negative value (in the file resp. through LIFTBRIDGE_TELEMETRY_INTERVAL_SECONDS — also next to a file that says off and has no interval of its own), rotating over routes and rounds; positive controls with telemetry on (defaults without proxy => resolver connect to port 53; config file + HTTPS_PROXY => CONNECT at the harness listener).  The binary is used over gRPC (stream with needle name, publishes), then stopped with SIGINT.  Oracle on the complete trace of an opt-out run: no connect() except unix sockets and loopback connections other than DNS / the proxy, and the proxy listener saw nothing.  non-trivial = binary served gRPC, exited 0 after SIGINT and the trace was parsed; distinct = route x proxy x interval class x spelling class x round")
 	rep.Assume("the sandbox has no network: a telemetry attempt is visible as the resolver's connect() to port 53 (nameserver 127.0.0.1) or as a connect() to the HTTPS_PROXY listener; if neither positive control shows an attempt the unit is inconclusive and the in-process unit alone decides")
+	rep.Assume("disagreeing sources: server/config.go declares LIFTBRIDGE_TELEMETRY_ENABLED / _INTERVAL_SECONDS as 'Environment variables overriding the telemetry settings' and CHANGELOG.md documents the variable as an opt-out without conditions, so LIFTBRIDGE_TELEMETRY_ENABLED=<off> must hold although the config file in use says enabled: true")
 	rep.Assume("main.go has no command-line flag for telemetry; the programmatic route is covered by the in-process unit")
 	work := os.Getenv("VERIF_WORK")
 	if work == "" {
@@ -283,6 +284,9 @@ func TestVerifC19Binary(t *testing.T) {
 		{"off-env-with-config-file", "env-var:with-config-file", "zero", true},
 		{"off-env-no-config-file", "env-var:no-config-file", "zero", true},
 		{"off-config-file-noproxy", "config-file", "zero", false},
+		// two sources that disagree: the file spells out enabled: true, the
+		// operator opts out through the environment (see c19_conflict_test.go)
+		{"off-env-vs-config-file-on", "env-var:config-file-says-enabled", "zero", true},
 	}
 	rounds := kit.Scale(2, 20)
 	base := kit.Mix(kit.Seed(), 0xC19B)
@@ -310,6 +314,11 @@ func TestVerifC19Binary(t *testing.T) {
 				return c19Documented
 			}
 			return envRot[(2*round)%len(envRot)]
+		case "off-env-vs-config-file-on":
+			if round == 0 {
+				return c19Documented
+			}
+			return envRot[(2*round+1)%len(envRot)]
 		}
 		return c19Documented
 	}
@@ -324,7 +333,7 @@ func TestVerifC19Binary(t *testing.T) {
 	var mu sync.Mutex
 	var results []result
 	total := len(cases) * rounds
-	kit.Parallel(total, 3, func(idx int) {
+	kit.Parallel(total, kit.EnvInt("C19_BINARY_WORKERS", 4), func(idx int) {
 		cs := cases[idx%len(cases)]
 		round := idx / len(cases)
 		rng := kit.NewRNG(kit.Mix(base, uint64(idx)))
@@ -375,7 +384,7 @@ func TestVerifC19Binary(t *testing.T) {
 			ivClass, ivVal = "zero", 0
 		case cs.Name == "off-config-file-noproxy":
 			ivClass, ivVal = "negative", -rng.Range(1, 86400)
-		case cs.Name == "off-config-file" && round%2 == 1:
+		case (cs.Name == "off-config-file" || cs.Name == "off-env-vs-config-file-on") && round%2 == 1:
 			ivClass, ivVal = "positive", rng.Range(1, 5)
 		case cs.Expect == "zero" && strings.HasPrefix(cs.Route, "env-var") && round%2 == 1:
 			if (round/2)%2 == 0 {
@@ -397,11 +406,29 @@ func TestVerifC19Binary(t *testing.T) {
 		case "config-file":
 			replay["config_file"] = yaml("telemetry:\n  enabled: " + sp.Text + "\n" + ivLine)
 			args = []string{"--config", file}
+			if cs.Name == "off-config-file" && ivClass == "unset" {
+				// disagreeing sources: the file says off, the environment still
+				// carries a reporting interval
+				ivClass, ivVal = "positive", rng.Range(1, 5)
+				env = append(env, fmt.Sprintf("%s=%d", c19EnvInterval, ivVal))
+				replay["interval_class"], replay["interval_seconds"], replay["interval_given_through"] = ivClass, ivVal, "env"
+			}
 		case "env-var:with-config-file":
 			if ivLine != "" {
 				replay["config_file"] = yaml("telemetry:\n" + ivLine)
 			} else {
 				replay["config_file"] = yaml("")
+			}
+			env = append(env, c19EnvVar+"="+sp.Text)
+			args = []string{"--config", file}
+		case "env-var:config-file-says-enabled":
+			// nested form in even rounds, dotted form in odd rounds
+			if round%2 == 0 {
+				replay["config_file"] = yaml("telemetry:\n  enabled: true\n" + ivLine)
+			} else if ivClass != "unset" {
+				replay["config_file"] = yaml(fmt.Sprintf("telemetry.enabled: true\ntelemetry.interval.seconds: %d\n", ivVal))
+			} else {
+				replay["config_file"] = yaml("telemetry.enabled: true\n")
 			}
 			env = append(env, c19EnvVar+"="+sp.Text)
 			args = []string{"--config", file}
@@ -640,12 +667,15 @@ func TestVerifC19Binary(t *testing.T) {
 			}
 			sp, _ := r.replay["optout_spelling"].(c19Spelling)
 			fp := "C19:telemetry-sent-while-disabled:" + r.cs.Route
-			inproc := map[string]string{"config-file": "config-file-nested"}[r.cs.Route]
+			inproc := map[string]string{"config-file": "config-file-nested", "env-var:config-file-says-enabled": "env-var:with-config-file"}[r.cs.Route]
 			if inproc == "" {
 				inproc = r.cs.Route
 			}
 			if c19SpellingIneffective(inproc, sp) {
 				fp += c19SpellingSuffix(sp)
+			}
+			if via, _ := r.replay["interval_given_through"].(string); via == "env" && r.cs.Route == "config-file" {
+				fp += ":env-interval"
 			}
 			if c, _ := r.replay["interval_class"].(string); c == "zero" || c == "negative" {
 				fp += ":interval-" + c
